@@ -16,6 +16,7 @@ import (
 //	op 0  stats.InvCDF of a harness-defined distribution (c07PW: piecewise cdf) at the levels Ys
 //	op 1  stats.InvCDF(BinomialDist{N,P}) at Ys
 //	op 2  stats.InvCDF(HypergeometicDist{N,K,D}) at Ys
+//	op 11 stats.InvCDF(UDist{N1: N, N2: K, T: T}) at Ys, compared with the exact model of C02 (len(T) = 0: T nil)
 //	op 3  dispatch: NormalDist{A,B} (kind 0) / DeltaDist{A} (kind 1): stats.InvCDF(d)(y) next to d.InvCDF(y),
 //	      stats.Rand(d)(r) next to d.Rand(r') for equally seeded sources (Seeds)
 //	op 4  stats.Rand of a c07PW with a scripted rand.Source (Src = the Int63 values it emits)
@@ -285,6 +286,19 @@ func c07Run(raw []byte) (*Line, error) {
 		}
 		l.I(c.N).I(c.K).I(c.D)
 		c07Items(l, c07SafeInv(stats.HypergeometicDist{N: c.N, K: c.K, Draws: c.D}), c.Ys)
+	case 11:
+		if err := c07CheckUDist(&c); err != nil {
+			return nil, err
+		}
+		var t []int
+		if len(c.T) > 0 {
+			t = append([]int(nil), c.T...) // the distribution gets its own copy
+		}
+		l.I(c.N).I(c.K).I(len(t))
+		for _, v := range t {
+			l.I(v)
+		}
+		c07Items(l, c07SafeInv(stats.UDist{N1: c.N, N2: c.K, T: t}), c.Ys)
 	case 4:
 		dist, d, err := c07MakeDist(&c)
 		if err != nil {
@@ -640,6 +654,67 @@ func c07DiscYs(rng *rand.Rand, cdf func(float64) float64, lo, hi int) []F64 {
 	return toF64s(ys)
 }
 
+// op 11: the parameter range the comparator tabulates (Check/C07.v udist_params_ok): N1, N2 >= 1, N1+N2 <= 10,
+// N1*N2 <= 25; T empty (nil: no ties) or >= 2 positive counts summing to N1+N2
+func c07CheckUDist(c *c07Case) error {
+	if c.N < 1 || c.K < 1 || c.N+c.K > 10 || c.N*c.K > 25 {
+		return fmt.Errorf("bad sample sizes")
+	}
+	if len(c.T) == 0 {
+		return nil
+	}
+	if len(c.T) < 2 {
+		return fmt.Errorf("bad tie vector")
+	}
+	sum := 0
+	for _, t := range c.T {
+		if t < 1 {
+			return fmt.Errorf("bad tie vector")
+		}
+		sum += t
+	}
+	if sum != c.N+c.K {
+		return fmt.Errorf("bad tie vector")
+	}
+	return nil
+}
+
+// levels for UDist: 0, 1, and around the cumulative levels at random half-integer points u (exact levels —
+// borderline by construction — in a quarter of the cases), mid points between two levels, random and odd values
+func c07UDistYs(rng *rand.Rand, cdf func(float64) float64, nm int) []F64 {
+	cdf = c07SafeCDF(cdf)
+	ys := []float64{0, 1}
+	exact := rng.Intn(4) == 0
+	for i := 0; i < 6; i++ {
+		u := float64(rng.Intn(2*nm+1)) / 2
+		c, prev := cdf(u), 0.0
+		for v := u - 0.5; v >= 0; v -= 0.5 { // the level below c (without ties the cdf is flat across the half-integers)
+			if p := cdf(v); p < c {
+				prev = p
+				break
+			}
+		}
+		kind := rng.Intn(5)
+		if kind == 0 && !exact {
+			kind = 1 + rng.Intn(4)
+		}
+		switch kind {
+		case 0:
+			ys = append(ys, c)
+		case 1:
+			ys = append(ys, c-1e-6, c+1e-6)
+		case 2:
+			ys = append(ys, (prev+c)/2)
+		case 3:
+			ys = append(ys, c*(1-1e-7))
+		default:
+			ys = append(ys, rng.Float64())
+		}
+	}
+	ys = append(ys, float64(rng.Intn(1025))/1024, c07OddYs[rng.Intn(len(c07OddYs))])
+	return toF64s(ys)
+}
+
 func c07Gen(tier string, rng *rand.Rand, emit func(interface{})) {
 	mul := 1
 	if tier == "thorough" {
@@ -779,6 +854,52 @@ func c07Gen(tier string, rng *rand.Rand, emit func(interface{})) {
 			hi = k
 		}
 		emit(c07Case{Op: 2, N: n, K: k, D: dr, Ys: c07DiscYs(rng, d.CDF, lo, hi)})
+	}
+	// (b') UDist against the exact model of C02: every N1, N2 <= 4 without ties (T nil), with T all ones, and with
+	// random tie vectors (7 per pair; 4*mul more at sizes up to 5 x 5)
+	udistT := func(n int) []int {
+		for {
+			var t []int
+			for left := n; left > 0; {
+				k := 1 + rng.Intn(3)
+				if k > left {
+					k = left
+				}
+				t = append(t, k)
+				left -= k
+			}
+			if len(t) >= 2 {
+				return t
+			}
+		}
+	}
+	emitU := func(n1, n2 int, t []int) {
+		d := stats.UDist{N1: n1, N2: n2, T: append([]int(nil), t...)}
+		if len(t) == 0 {
+			d.T = nil
+		}
+		emit(c07Case{Op: 11, N: n1, K: n2, T: t, Ys: c07UDistYs(rng, d.CDF, n1*n2)})
+	}
+	for n1 := 1; n1 <= 4; n1++ {
+		for n2 := 1; n2 <= 4; n2++ {
+			emitU(n1, n2, nil)
+			ones := make([]int, n1+n2)
+			for i := range ones {
+				ones[i] = 1
+			}
+			emitU(n1, n2, ones)
+			for j := 0; j < 7; j++ {
+				emitU(n1, n2, udistT(n1+n2))
+			}
+		}
+	}
+	for i := 0; i < 4*mul; i++ {
+		n1, n2 := 1+rng.Intn(5), 1+rng.Intn(5)
+		var t []int
+		if rng.Intn(3) != 0 {
+			t = udistT(n1 + n2)
+		}
+		emitU(n1, n2, t)
 	}
 	// (c) dispatch
 	for i := 0; i < 40*mul; i++ {
